@@ -204,6 +204,7 @@ func cycles(c *core.Ctx, r *core.Result, idx int, rng *rand.Rand, verbose bool) 
 			nontrivial = true
 		}
 		p := l.NewPeer()
+		queuedN := 0 // messages the application submitted while the logon was pending (numbered and stored, never transmitted first-time)
 		if appReset := cf.Initiator && hasFlag && rng.Intn(8) == 0; appReset {
 			appResetSeen = true
 			// the application asks for a reset by setting the flag on the outgoing Logon in its ToAdmin callback
@@ -240,6 +241,12 @@ func cycles(c *core.Ctx, r *core.Result, idx int, rng *rand.Rand, verbose bool) 
 			peerFlag = hasFlag && rng.Intn(2) == 0
 		case hasFlag && (rng.Intn(5) == 0 || (lostResetLogon && rng.Intn(3) > 0)):
 			peerSeq, peerFlag = 1, true // unsolicited reset request by the peer
+		}
+		if cf.Initiator && rng.Intn(4) == 0 {
+			// the application submits a message while the logon is still pending: it is numbered, stored and queued
+			_ = l.Send(lab.AppMessage(fmt.Sprintf("q%d", cyc)))
+			shape.WriteString("|queued-before-logon")
+			queuedN++
 		}
 		unsolicitedToInitiator := cf.Initiator && peerFlag && !engineFlag
 		var extra []fixwire.Field
@@ -353,6 +360,9 @@ func cycles(c *core.Ctx, r *core.Result, idx int, rng *rand.Rand, verbose bool) 
 			if cf.Initiator {
 				extraOut = sentOnConnect + len(logonOuts)
 			}
+			if engineFlag {
+				extraOut += queuedN // submitted after the engine's own reset: they carry numbers of the new numbering
+			}
 			if after.T != 2 || after.S != 1+extraOut {
 				fail("reset-logon/counters", fmt.Sprintf("after a 141=Y exchange counters are (sender %d, target %d), expected (%d, 2)", after.S, after.T, 1+extraOut))
 				return
@@ -360,7 +370,7 @@ func cycles(c *core.Ctx, r *core.Result, idx int, rng *rand.Rand, verbose bool) 
 		}
 		if !anyReset && cyc > 1 {
 			// nothing sanctioned a reset since the previous cycle ended: counters and messages carried over
-			sent := sentOnConnect + len(logonOuts)
+			sent := sentOnConnect + len(logonOuts) + queuedN
 			if after.T != before.T+1 || after.S != before.S+sent {
 				fail("persistence/counters", fmt.Sprintf("no reset configured or negotiated, yet counters went from (sender %d, target %d) before the reconnect to (%d, %d) after the logon (%d frames sent, 1 consumed)", before.S, before.T, after.S, after.T, sent))
 				return
